@@ -7,7 +7,7 @@ from ..core import terms as T
 from ..core import asthelp as H
 from ..core.interp import Interp
 from ..core.progdb import AnalysisError, call_name
-from ..core.values import Frame, Obj, PyTuple, to_term
+from ..core.values import ClassRef, Frame, Obj, PyTuple, to_term
 from ..specs.merge import MergeHook, check_merge, check_term, span_terms, busy_term, merged_frame_of
 from ..specs import kernel_type as KT
 
@@ -151,9 +151,11 @@ def run(db, chk) -> None:
     per_rank_q = None
     for c_ in H.calls(outer, nested=False):
         nm_ = call_name(c_).split(".")[-1]
-        for q_ in (f"BreakdownAnalysis.get_temporal_breakdown.{nm_}", f"BreakdownAnalysis.{nm_}", nm_):
+        # (a nested closure, a method, a module function, or the __call__ of a module-level callable class instantiated in the method)
+        for q_ in (f"BreakdownAnalysis.get_temporal_breakdown.{nm_}", f"BreakdownAnalysis.{nm_}", nm_, f"{nm_}.__call__"):
             d_ = m.functions.get(q_)
-            if d_ is not None and d_ is not outer and any(isinstance(x, ast.Call) and call_name(x).split(".")[-1] in ("merge_kernel_intervals", "_get_idle_time_for_kernels") for x in ast.walk(d_)):
+            if d_ is not None and d_ is not outer and any(isinstance(x, ast.Call) and call_name(x).split(".")[-1] in ("merge_kernel_intervals", "_get_idle_time_for_kernels")
+                                                          for g_ in H.with_private_callees(m, d_, depth=2) for x in ast.walk(g_)):
                 per_rank_q = q_
     if per_rank_q is None:
         raise AnalysisError("get_temporal_breakdown: no per-rank callee that measures merged kernel intervals was found")
@@ -168,7 +170,20 @@ def run(db, chk) -> None:
     def role_args(I):
         out = {}
         for p_ in H.param_names(f2):
-            if p_ in ("cls", "self"):
+            if p_ == "self" and per_rank_q.endswith(".__call__") and per_rank_q.split(".")[0] in m.classes:
+                # a callable object: built as its own __init__ does, constructor arguments given by role
+                cq = per_rank_q.split(".")[0]
+                init = m.functions.get(f"{cq}.__init__")
+                ia = []
+                for ip in (H.param_names(init)[1:] if init is not None else []):
+                    if "sym" in ip:
+                        ia.append(T.P("sym_table"))
+                    elif "analy" in ip or ip in ("cls", "owner"):
+                        ia.append(ClassRef(m, "BreakdownAnalysis"))
+                    else:
+                        raise AnalysisError(f"{cq}.__init__: role of parameter {ip} not recognised")
+                out[p_] = I.pm.invoke(ClassRef(m, cq), ia, {}, f2)
+            elif p_ in ("cls", "self"):
                 out[p_] = Obj("cls", cls=cls)
             elif "sym" in p_:
                 out[p_] = T.P("sym_table")
@@ -204,7 +219,7 @@ def run(db, chk) -> None:
                 nt_fields = flds
 
     def hook3(I, name, pos, kw, node):
-        if name.split(".")[-1] == per_rank_name:
+        if (name == per_rank_q) if per_rank_q.endswith(".__call__") else (name.split(".")[-1] == per_rank_name):
             if nt_fields is not None:
                 o = Obj("per_rank_result", attrs={f_: parts.items[_role_of_field(f_)] for f_ in nt_fields})
                 o.attrs["__fields__"] = list(nt_fields)
